@@ -35,10 +35,17 @@ static void unreg_block(void *p) { for (auto it = g_blocks.rbegin(); it != g_blo
     Ev e("Dealloc"); e.i("b", -1); e.end(); }
 static int block_of(const void *p) { if (!p) return -1; int b; long i; locate(p, b, i); return b; }
 
+// ---- injected failures: "Arm ctor <n>" makes the n-th counted construction of a Tracked element (from a value or by copy) throw, "Arm alloc" makes
+// the next allocation throw std::bad_alloc; the next operation runs with the knob set and is logged with threw = 1 if the exception came out of it
+struct Boom {};
+static long g_throw_in = 0, g_pend_ctor = 0; static bool g_fail_alloc = false, g_pend_alloc = false; static const char *g_armed = ""; static long g_armn = 0;
+static void activate() { g_throw_in = g_pend_ctor; g_fail_alloc = g_pend_alloc; g_pend_ctor = 0; g_pend_alloc = false; }
+static void disarm() { g_throw_in = 0; g_fail_alloc = false; }
+template <class F> static void guarded(int &threw, F &&f) { activate(); try { f(); } catch (const Boom &) { threw = 1; } catch (const std::bad_alloc &) { threw = 1; } disarm(); }
 template <class T> struct TrackAlloc {
     typedef T value_type;
     TrackAlloc() {} template <class U> TrackAlloc(const TrackAlloc<U> &) {}
-    T *allocate(size_t n) { size_t bytes = n * sizeof(T); T *p = (T *)malloc(bytes ? bytes : 1); memset((void *)p, 0xCD, bytes); reg_block(p, n, sizeof(T)); return p; }
+    T *allocate(size_t n) { if (g_fail_alloc) { g_fail_alloc = false; throw std::bad_alloc(); } size_t bytes = n * sizeof(T); T *p = (T *)malloc(bytes ? bytes : 1); memset((void *)p, 0xCD, bytes); reg_block(p, n, sizeof(T)); return p; }
     void deallocate(T *p, size_t) { if (!p) return; unreg_block(p); free(p); }
     template <class U> struct rebind { typedef TrackAlloc<U> other; };
     bool operator==(const TrackAlloc &) const { return true; } bool operator!=(const TrackAlloc &) const { return false; }
@@ -52,9 +59,11 @@ struct Tracked {
     int value() const { return ok() && p ? *p : -1; }
     static void ev(const char *k, const void *dst, const void *src, int v) { int b, sb; long i, si; locate(dst, b, i); if (src) locate(src, sb, si); else { sb = -1; si = -1; }
         if (b == -1 && sb == -1) return; Ev e("El"); e.str("k", k).i("b", b).i("i", i).i("v", v).i("sb", sb).i("si", si); e.end(); }
-    Tracked() : magic(MAGIC), p(new int(0)) { ev("ctor", this, 0, 0); }
-    Tracked(int v) : magic(MAGIC), p(new int(v)) { ev("ctor", this, 0, v); }
-    Tracked(const Tracked &o) : magic(MAGIC), p(new int(o.value())) { ev("cctor", this, &o, *p); }
+    Tracked() : magic((maybe_throw0(), MAGIC)), p(new int(0)) { ev("ctor", this, 0, 0); }
+    static void maybe_throw0() { if (g_throw_in > 0 && --g_throw_in == 0) throw Boom(); }
+    static void maybe_throw() { if (g_throw_in > 0 && --g_throw_in == 0) throw Boom(); }
+    Tracked(int v) : magic((maybe_throw(), MAGIC)), p(new int(v)) { ev("ctor", this, 0, v); }
+    Tracked(const Tracked &o) : magic((maybe_throw(), MAGIC)), p(new int(o.value())) { ev("cctor", this, &o, *p); }
     Tracked(Tracked &&o) : magic(MAGIC), p(0) { int v = o.value(); ev("mctor", this, &o, v); if (o.ok()) { p = o.p; o.p = 0; } else p = new int(v); }
     Tracked &operator=(const Tracked &o) { int v = o.value(); ev("cassign", this, &o, v); if (ok()) { if (p) *p = v; else p = new int(v); } return *this; }
     Tracked &operator=(Tracked &&o) { int v = o.value(); ev("massign", this, &o, v); if (this == &o) return *this; if (ok()) { delete p; p = 0; if (o.ok()) { p = o.p; o.p = 0; } else p = new int(v); } return *this; }
@@ -113,6 +122,7 @@ template <class Cn, class E, bool Static> struct Runner {
         e.bytes("gl", mem[k], 16).bytes("gr", mem[k] + 16 + sizeof(Cn), 16);
     }
     void op(const std::vector<std::string> &t) {
+        if (t[0] == "Arm") { if (t[1] == "ctor") { g_pend_ctor = num(t[2]); g_pend_alloc = false; g_armed = "ctor"; } else { g_pend_alloc = true; g_pend_ctor = 0; g_armed = "alloc"; } g_armn = t[1] == "ctor" ? num(t[2]) : 0; return; }
         const std::string &name = t[0]; int k = num(t[1]); long a = t.size() > 2 ? num(t[2]) : 0, b = t.size() > 3 ? num(t[3]) : 0; long ret = 0; int threw = 0; int d = (int)a; std::vector<long long> srcv;
         if (name == "Create") { prep(k); new (&c(k)) Cn(); exists[k] = true; reg(k); }
         else if (name == "CreateFrom") { auto vs = list(t[2]); std::vector<E> src; for (auto v : vs) { src.push_back(from_code<E>(v)); srcv.push_back(v); } a = 0; prep(k);
@@ -129,13 +139,13 @@ template <class Cn, class E, bool Static> struct Runner {
             else unsupported(name);
             exists[k] = true; }
         else if (name == "Destroy") { c(k).~Cn(); exists[k] = false; unreg(k); }
-        else if (name == "PushBack") { E v(from_code<E>(a)); c(k).push_back(v); }
-        else if (name == "EmplaceBack") { if constexpr (std::is_same<E, double>::value) c(k).emplace_back(from_code<E>(a)); else c(k).emplace_back((int)a); }
+        else if (name == "PushBack") { E v(from_code<E>(a)); guarded(threw, [&] { c(k).push_back(v); }); }
+        else if (name == "EmplaceBack") { guarded(threw, [&] { if constexpr (std::is_same<E, double>::value) c(k).emplace_back(from_code<E>(a)); else c(k).emplace_back((int)a); }); }
         else if (name == "PushBackSelf") { if constexpr (!Static) c(k).push_back(c(k)[a]); else unsupported(name); }            // the argument refers to an element of the vector itself
         else if (name == "EmplaceBackSelf") { if constexpr (!Static) c(k).emplace_back(c(k)[a]); else unsupported(name); }
         else if (name == "InsertSelf") { if constexpr (!Static) { auto it = c(k).insert(c(k).begin() + a, c(k)[b]); ret = it - c(k).begin(); } else unsupported(name); }
         else if (name == "Erase") { if constexpr (requires { c(k).erase(c(k).begin(), c(k).begin()); }) c(k).erase(c(k).begin() + a, c(k).begin() + b); else unsupported(name); }
-        else if (name == "Resize") { c(k).resize(a); }
+        else if (name == "Resize") { guarded(threw, [&] { c(k).resize(a); }); }
         else if (name == "Clear") { c(k).clear(); }
         else if (name == "CopyCtor") { prep(k); if constexpr (Static) { g_blocks.push_back(Block{(char *)c(k).data(), (sizeof(Cn) - sizeof(size_t)) / sizeof(E), sizeof(E), g_next_id, true}); { Ev e("Alloc"); e.i("b", g_next_id).i("n", (sizeof(Cn) - sizeof(size_t)) / sizeof(E)); e.end(); } ++g_next_id; }
             new (&c(k)) Cn(c(d)); exists[k] = true; if constexpr (!Static) {} }
@@ -151,14 +161,15 @@ template <class Cn, class E, bool Static> struct Runner {
             else if (name == "Emplace") { auto it = std::is_same<E, double>::value ? c(k).emplace(c(k).begin() + a, from_code<E>(b)) : c(k).emplace(c(k).begin() + a, (int)b); ret = it - c(k).begin(); }
             else if (name == "EraseAt") { c(k).erase(c(k).begin() + a); }
             else if (name == "PopBack") { c(k).pop_back(); }
-            else if (name == "Reserve") { c(k).reserve(a); }
+            else if (name == "Reserve") { guarded(threw, [&] { c(k).reserve(a); }); }
             else if (name == "Eq") { ret = c(k) == c(d) ? 1 : 0; }
             else if (name == "Less") { if constexpr (requires { c(k) < c(d); }) ret = c(k) < c(d) ? 1 : 0; else unsupported(name); }
             else if (name == "At") { if constexpr (requires { c(k).at(0); }) { try { ret = val_of(c(k).at(a)); } catch (const std::out_of_range &) { threw = 1; ret = 0; } } else unsupported(name); }
             else { fprintf(stderr, "bad op %s\n", name.c_str()); exit(3); }
         } else { fprintf(stderr, "bad static op %s\n", name.c_str()); exit(3); }
         std::vector<long long> oc; if ((name == "MoveCtor" || name == "MoveAssign") && exists[d]) { size_t n = c(d).size(); for (size_t j = 0; j < n && j < 200000; ++j) oc.push_back(val_of(c(d).data()[j])); }
-        Ev e("Op"); e.str("name", name.c_str()).i("a", a).i("b", b).i("ret", ret).i("threw", threw).ints("src", srcv).ints("ocontents", oc); obs(e, k); e.end();
+        std::string inj = g_armed; long injn = g_armn; g_armed = ""; g_armn = 0; g_pend_ctor = 0; g_pend_alloc = false;
+        Ev e("Op"); e.str("name", name.c_str()).i("a", a).i("b", b).i("ret", ret).i("threw", threw).str("inject", inj.c_str()).i("injn", injn).ints("src", srcv).ints("ocontents", oc); obs(e, k); e.end();
         if (name == "CopyCtor" || name == "MoveCtor" || name == "CopyAssign" || name == "MoveAssign" || name == "Eq" || name == "Less") { Ev e2("Other"); obs(e2, d); e2.end(); }
     }
     void finish() { for (int k = 0; k < 2; ++k) if (exists[k]) { c(k).~Cn(); exists[k] = false; unreg(k); } }
